@@ -98,6 +98,7 @@ func decEvent(tr *vh.Trace, sc int, name string, data []byte, first gopacket.Lay
 		ev["nl"] = 0
 		ev["failIdx"] = 0
 		ev["failPos"] = []int{}
+		ev["errFirst"] = -1
 		ev["sig"] = sigOf(recs, "NewPacket")
 		tr.Emit(ev)
 		return
@@ -160,6 +161,22 @@ func decEvent(tr *vh.Trace, sc int, name string, data []byte, first gopacket.Lay
 	if !isNil(el) && failIdx == 0 {
 		failIdx = -1
 	}
+	// "the packet says so" must not depend on which accessor asks first: a second lazy packet is asked for its
+	// error layer before anything else (-1: not measured, 0: nil, 1: non-nil)
+	errFirst := -1
+	if opts.Lazy {
+		guardAcc("ErrorLayer-first", &recs, func() {
+			p2 := gopacket.NewPacket(data, first, opts)
+			errFirst = 0
+			if !isNil(p2.ErrorLayer()) {
+				errFirst = 1
+			}
+			if pp, ok := p2.(gopacket.PooledPacket); ok {
+				pp.Dispose()
+			}
+		})
+	}
+	ev["errFirst"] = errFirst
 	ev["panics"] = recs
 	ev["nl"] = len(ls)
 	ev["failIdx"] = failIdx
